@@ -12,6 +12,7 @@ XPath 1.0 implementation - part 3 (functions)
 """
 import math
 import decimal
+import re
 from collections.abc import Iterator
 from typing import Any
 
@@ -250,7 +251,8 @@ def evaluate__normalize_space(self: XPathFunction, context: ta.ContextType = Non
         arg = self.string_value(self.get_argument(context, default_to_context=True, default=''))
     else:
         arg = self.get_argument(context, default_to_context=True, default='', cls=str)
-    return ' '.join(arg.strip().split())
+    # whitespace is the XML S production only; str.split() also drops U+00A0, U+2003, U+0085 ...
+    return ' '.join(x for x in re.split(r'[ \t\n\r]+', arg) if x)
 
 
 @method(function('starts-with', nargs=2,
